@@ -30,6 +30,9 @@ def coq_part(p):
         return "PStar " + nll(p.get("vs") or [])
     if k == "ulist":
         return "PUList " + nll(p.get("vs") or [])
+    if k == "dblmix":
+        return "PDblMix " + coq_list(["DList " + nll(it.get("es") or []) if it.get("list") else "DVal " + nl(it.get("v") or [])
+                                      for it in (p.get("items") or [])])
     raise ValueError(k)
 
 
@@ -63,8 +66,8 @@ def run(ctx):
             return
         streams[mode] = rows
     ctx.rule = ("IFS drawn from unset/empty/default/whitespace/non-whitespace/mixed/multi-byte values; words of 1..4 parts "
-                "(unquoted literal incl. backslash escapes, '..', \"..\" with literal and ${v} pieces incl. \"\", ${v}, \"$@\", \"$*\", "
-                "$@/$*; wild stream adds $(..), `..`, invalid UTF-8, arrays); values of 0..6 characters, 40% of them IFS characters, "
+                "(unquoted literal incl. backslash escapes, '..', \"..\" with literal and ${v} pieces incl. \"\", \"..$@..\", ${v}, $((n)), "
+                "\"$@\", \"$*\", $@/$*; wild stream adds $(..), `..`, invalid UTF-8, arrays); values of 0..6 characters, 40% of them IFS characters, "
                 "at the start, middle and end; 0..3 positional parameters; non-trivial = distinct (IFS, word, values) whose "
                 "expansion yields at least two fields or an empty field")
     # ---- search: Go (interp and expand.Fields) vs bash
@@ -84,8 +87,9 @@ def run(ctx):
     ctx.extra["cases_without_bash_oracle"] = no_oracle
     # pinned witnesses of the known findings must still fail the same way
     seen = set(r.get("class") for r in streams["pinned"] if r.get("fails"))
+    superseded = set(k["id"] for k in ctx.known if k["status"] == "fixed")
     for k in ctx.known:
-        if k["status"] == "known" and k["class"] not in seen and k.get("witness", {}).get("pinned"):
+        if k["status"] == "known" and k["id"] not in superseded and k["class"] not in seen and k.get("witness", {}).get("pinned"):
             ctx.broken.append(("known-finding-witness", "pinned witness of %s no longer fails: update known_findings" % k["id"]))
     # ---- code leg: expand.Fields vs the Coq model, in the kernel
     rows = [r for m in ("gen", "wild") for r in streams[m] if r["modelled"] and isinstance(r["fields"], list)]
@@ -130,7 +134,7 @@ META = {
              "\"$@\"/\"$*\" theorems. Model tied to expand.Fields on every run (vm_compute in the kernel on the harness' cases); "
              "interp and expand.Fields compared with bash 5.2 on generated, unmodelled and pinned words."),
     "note": ("Trusted: Coq kernel + vm_compute; hand-written model (tie = differential testing); bash as oracle except where it is "
-             "bytewise wrong for multi-byte IFS. Known findings: \"$@\" with siblings inside double quotes; bash's missing leading "
-             "empty field in words with $@/$* that begin with IFS whitespace + non-whitespace IFS."),
+             "bytewise wrong for multi-byte IFS. Known finding: bash's missing leading empty field in words with $@/$* that "
+             "begin with IFS whitespace + non-whitespace IFS (Go follows POSIX/dash)."),
     "design_ref": "DESIGN.md 4 C22",
 }
